@@ -33,10 +33,12 @@ func init() {
 		o.Site(sel, e.X(fn, sel))
 		o.Check(sel.Blocking && len(sel.States) == 2, "select-shape", "the wait must be a blocking select on the timer and the context", sel)
 		var tmr, ctxd bool
+		tmrS := "time.After(dyn(fn=recv.wait))"
 		for _, st := range sel.States {
 			x := e.X(fn, st.Chan)
-			if x == "time.After(dyn(fn=recv.wait))" {
+			if x == "time.After(dyn(fn=recv.wait))" || x == "time.NewTimer(dyn(fn=recv.wait)).C" {
 				tmr = true
+				tmrS = x
 			}
 			if x == "invoke:context.Context.Done(ctx)" {
 				ctxd = true
@@ -45,8 +47,8 @@ func init() {
 		o.Check(tmr, "timer", "the timer must be time.After(ws.wait()): the full position-dependent wait, measured from when the stage is reached (not reduced by time spent in earlier stages)", sel)
 		o.Check(ctxd, "ctx", "the wait must be abandoned when the flush context ends", sel)
 		o.Table(fn, "wait", []Row{
-			{Name: "timer fired", Assume: A(L("sel:recv:time.After(dyn(fn=recv.wait))", true)), Ret: [][]string{nil, Vals("p2"), Vals("nil")}},
-			{Name: "context ended", Assume: A(L("sel:recv:time.After(dyn(fn=recv.wait))", false), L("sel:recv:invoke:context.Context.Done(ctx)", true)), Ret: [][]string{nil, Vals("nil"), Vals("invoke:context.Context.Err(ctx)")}},
+			{Name: "timer fired", Assume: A(L("sel:recv:"+tmrS, true)), Ret: [][]string{nil, Vals("p2"), Vals("nil")}},
+			{Name: "context ended", Assume: A(L("sel:recv:"+tmrS, false), L("sel:recv:invoke:context.Context.Done(ctx)", true)), Ret: [][]string{nil, Vals("nil"), Vals("invoke:context.Context.Err(ctx)")}},
 		})
 		nw := o.Fn("am/notify.NewClusterWaitStage")
 		st := e.StoresToField(nw, "am/notify.ClusterWaitStage", "wait")
